@@ -225,7 +225,7 @@ def check_relations(table):
             for which, o in (("resolution", o1), ("ColFn", o2)):
                 if o.startswith("!"):
                     out.append(dict(oracle="O13.1", op=name, sig=key, what=f"{which} of `{name}`({key}) raised {o[1:]}", features=dict(cls=o[1:], has_null="NullType" in key, which=which)))
-            if op is None or not o1.startswith("= "):
+            if not o1.startswith("= ") or (op is None and name != "cast"):
                 continue
             parts = key.split(",") if key else []
             res_fam = family(o1[2:])
